@@ -58,6 +58,16 @@ def le_acc(u, j):
     return le_acc(u, j - 1) * 256 + (u // 2 ** (8 * (j - 1))) % 256
 
 
+@spec(rec=True, sig=['int', 'int', 'int', 'int', 'int'])
+def be_acc(u, nb, top, j):
+    """big-endian emission: the first j bytes (most significant first, the first one contributing its low `top` bits)"""
+    if j <= 0:
+        return 0
+    if j == 1:
+        return (u // 2 ** (8 * (nb - 1))) % 2 ** top
+    return be_acc(u, nb, top, j - 1) * 256 + (u // 2 ** (8 * (nb - j))) % 256
+
+
 @spec
 def field_bits(value, bit_size, endian):
     """the bit_size-bit string a field contributes, as a number.
@@ -106,6 +116,13 @@ lemma('to_bytes_def', vars={'u': 'int', 'n': 'int', 'little': 'bool', 'j': 'int'
       concl=['tb_byte(u, n, little, j) == (u // 2 ** (8 * ite(little, j, n - 1 - j))) % 256'],
       by='axiom', triggers=['tb_byte(u, n, little, j)'], props=['C01', 'C12'])
 
+# emitting the bytes of the ceil(k/8)-byte representation most significant first, the first byte contributing its
+# low ((k+7)%8)+1 bits, yields exactly the low k bits of the value (pure arithmetic; one proof per width k)
+lemma('be_acc_is_low_bits', vars={'u': 'int', 'k': 'int'},
+      hyps=['0 <= u and u < 2 ** (8 * nbytes_for(k))'],
+      concl=['be_acc(u, nbytes_for(k), top_bits(k), nbytes_for(k)) == u % 2 ** k'],
+      by='bv', cases={'k': range(1, 65)}, ubounds={'u': lambda k: 2 ** (8 * ((k + 7) // 8)) - 1}, props=['C01', 'C12'])
+
 contract(PB + '.__init__', props=['C01', 'C12'],
          ensures=['pb_ok(self)', 'pb_nbits(self) == 0', 'pb_val(self) == 0'],
          modifies=['self._bytes', 'self._cur_byte_idx', 'self._cur_bit_idx'], allocates=True)
@@ -146,7 +163,7 @@ LOOPS = {
               inv=['pb_ok(self)', '0 <= i and i <= len(value_bytes)', 'self._bytes == old(self._bytes)',
                    "implies(endian == 'big', pb_nbits(self) == entry(pb_nbits(self)) + ite(i == 0, 0, top_bits(bit_size) + 8 * (i - 1)))",
                    "implies(endian == 'big', pb_val(self) == entry(pb_val(self)) * 2 ** ite(i == 0, 0, top_bits(bit_size) + 8 * (i - 1))"
-                   " + (value % 2 ** bit_size) // 2 ** (8 * (len(value_bytes) - i)))",
+                   " + be_acc(value % 2 ** (8 * len(value_bytes)), len(value_bytes), top_bits(bit_size), i))",
                    "implies(endian == 'little', pb_nbits(self) == entry(pb_nbits(self)) + ite(i == len(value_bytes), bit_size, 8 * i))",
                    "implies(endian == 'little' and i < len(value_bytes), pb_val(self) == entry(pb_val(self)) * 2 ** (8 * i)"
                    " + le_acc(value % 2 ** (8 * len(value_bytes)), i))",
@@ -165,6 +182,7 @@ contract(PB + '.append_bits', props=['C01', 'C12'],
          ensures=APPEND_POST,
          modifies=MOD,
          lemmas=['to_bytes_def', 'bigend_frame'],
+         lemma_instances=[('be_acc_is_low_bits', {'k': 'bit_size', 'u': 'value % 2 ** (8 * nbytes_for(bit_size))'})],
          locals={'bit_start': 'int', 'value_bytes': 'bytes'}, loops=LOOPS, blocks=BLOCKS,
          cases={'bit_size': list(range(1, 65))},
          split=[('block[bit]', {'self._cur_bit_idx': (-1, 7), 'old(self._cur_bit_idx)': (-1, 7), 'bit_idx': (0, 7)}),
